@@ -569,6 +569,14 @@ def record(run, slot, algo, policy, order, cost, keyset, where):
     slot.results.setdefault((algo, policy), []).append((order, cost, keyset))
 
 
+def tame_policy(slot, policy):
+    """The number of co-optimal solutions explodes with degenerate costs on larger trees:
+    beyond 6 object leaves only one solution is requested (costs are still compared)."""
+    if policy == "ALL" and len(ref.nested_leaves(slot.spec["object"])) > 6:
+        return "ANY"
+    return policy
+
+
 def do_solve(run, slots, op, idx, regime):
     slot = slots[op["input"] % len(slots)]
     algo, policy = op["algo"], op["policy"]
@@ -579,6 +587,10 @@ def do_solve(run, slots, op, idx, regime):
             return
     if MODE[algo] == "unordered" and slot.spec["root_order"] is not None:
         return  # a prescribed root order is a notion of the ordered model only
+    if algo == "exh" and (len(ref.nested_leaves(slot.spec["object"])) > 6
+                          or len(ref.nested_leaves(slot.spec["species"])) > 6):
+        return  # exhaustive enumeration is exponential: kept to small inputs
+    policy = tame_policy(slot, policy)
     where = f"op {idx} solve"
     outs = call_solver(run, slot, algo, policy, op["order"], op.get("clock", 0), where)
     if outs is None:
@@ -869,27 +881,36 @@ def do_meta(run, slots, op, idx, regime):
         return
     new_spec, back, expect = derived
     where = f"op {idx} meta {op['kind']}"
-    outs1 = call_solver(run, slot, algo, "ALL", op["order"], 0, where + " base")
+    pol = tame_policy(slot, "ALL")
+    if pol != "ALL":
+        expect = dict(expect, set=None)
+    outs1 = call_solver(run, slot, algo, pol, op["order"], 0, where + " base")
     if outs1 is None:
         return
-    cost1, keys1 = check_outputs(run, slot, algo, "ALL", outs1, where + " base", regime)
+    cost1, keys1 = check_outputs(run, slot, algo, pol, outs1, where + " base", regime)
     if cost1 == INVALID:
         return
-    record(run, slot, algo, "ALL", op["order"], cost1, keys1, where)
+    record(run, slot, algo, pol, op["order"], cost1, keys1, where)
     if op["kind"] == "again":
         slot2 = slot
         run.probe("rerun_same_object")
     else:
         slot2 = Slot(new_spec)
         slots.append(slot2)
-    outs2 = call_solver(run, slot2, algo, "ALL", op["order2"], 0, where + " derived")
+    outs2 = call_solver(run, slot2, algo, pol, op["order2"], 0, where + " derived")
     if outs2 is None:
         return
-    cost2, keys2 = check_outputs(run, slot2, algo, "ALL", outs2, where + " derived", regime)
+    cost2, keys2 = check_outputs(run, slot2, algo, pol, outs2, where + " derived", regime)
     if cost2 == INVALID:
         return
     if slot2 is not slot:
-        record(run, slot2, algo, "ALL", op["order2"], cost2, keys2, where)
+        record(run, slot2, algo, pol, op["order2"], cost2, keys2, where)
+    elif pol == "ALL":
+        run.check(keys1 == keys2, ("C09",), "C09.all-set-changed-on-rerun",
+                  lambda: f"{where}: {algo}(ALL) on the same object under orders {op['order']} "
+                          f"and {op['order2']}: {len(keys1)} vs {len(keys2)} solutions; only "
+                          f"first {sorted(keys1 - keys2)[:2]}; only second "
+                          f"{sorted(keys2 - keys1)[:2]}; input {slot.spec}")
     run.nontrivial = True
     run.probe("meta_" + op["kind"])
     detail = lambda: (f"{where}: {algo}: base input {slot.spec} -> cost {cost1}, "  # noqa: E731
